@@ -199,6 +199,12 @@ class Packet(_with_metaclass(bisturi.packet_builder.MetaPacket, object)):
             return False
 
         for name, f, pack, _ in self.get_fields():
+            if getattr(f, 'descriptor', None):
+                # a described field (Auto, AutoLength) is worth what its
+                # attribute reads as (computed or explicitly set), the hidden
+                # storage is only brought up to date when packing
+                name = f.descriptor_name
+
             # pseudo fields (the moves added by at/shift/aligned, Em) never
             # hold a value: there is nothing to compare
             mine = getattr(self, name, _NoValue)
